@@ -228,8 +228,30 @@ def check_uniform(ctx):
 
 
 
+def check_linear_impls(ctx):
+    """size() / gene_mut() of the workspace's linear genomes address the gene vector itself"""
+    n = 0
+    for f in ctx.trait_impl_fns("ec_linear::genome::Linear::size"):
+        n += 1
+        ps = return_paths(ctx.paths(f))
+        r = ps[0].ret if len(ps) == 1 else ("unknown",)
+        ok = callee_is(r, "Vec::len", "[T]::len") and peel(r[3][0], ("Deref::deref",))[0] == "field" and peel(peel(r[3][0], ("Deref::deref",))[1], ()) == ("param", 1) and len(ps[0].calls()) <= 2
+        ctx.check(ok, "R10.6", "Linear::size/%s=len-of-gene-vector" % f.id.split(" as ")[0].split("::")[-1].strip("<>"), short(r, 3), f.at())
+    for f in ctx.trait_impl_fns("ec_linear::genome::Linear::gene_mut"):
+        n += 1
+        ps = return_paths(ctx.paths(f))
+        r = ps[0].ret if len(ps) == 1 else ("unknown",)
+        ok = callee_is(r, "[T]::get_mut") and r[3][1] == ("param", 2)
+        if ok:
+            b = peel(r[3][0], ("DerefMut::deref_mut", "Deref::deref"))
+            ok = b[0] == "field" and peel(b[1], ()) == ("param", 1)
+        ctx.check(ok, "R10.6", "Linear::gene_mut/%s=get_mut(index)-on-gene-vector" % f.id.split(" as ")[0].split("::")[-1].strip("<>"), short(r, 3), f.at())
+    ctx.floor("R10.6", n, 6, "Linear::size / gene_mut impls")
+
+
 def check_bitstring_and_audit(ctx):
     F = ctx.F
+    check_linear_impls(ctx)
     # ---- Bitstring ---------------------------------------------------------------------
     f = ctx.fn(BS + "crossover_gene")
     paths = [p for p in ctx.paths(f) if p.end != "unreachable"]
